@@ -91,6 +91,18 @@ CLAIMS = {
         "generators (also across forked workers) is a property of NumPy/the OS and is not modelled.",
         COMMON_NOTE,
         "DESIGN.md §3 C20"),
+    "C18": (
+        "Coq proof over Coquelicot's complex numbers about a model REGENERATED from gate_library.py by a fail-closed ast translator on every run + translator validation against the live objects + search against Qiskit standard matrices / scipy expm",
+        "Machine-checked proof, for every real angle, that each gate class's matrix expression (as written in the source today) is the "
+        "standard matrix of that name (19 gates) and that the generator pair stored on cx, cz, cp, rxx, ryy, rzz has the structure "
+        "(scalar times involution, or scalar times G with G^2 = mu G) whose closed-form exponential equals the gate matrix; the closed "
+        "forms are proved to be one-parameter groups through the identity. Angle expressions are normalised by field_simplify so that "
+        "algebraically equal rewrites of the source keep the proofs valid. PARTIAL: closed form = analytic matrix exponential is cited "
+        "(group law proved); tensor orientation (set_sites transposes), extend_gate/split_tensor (SVD split, identity padding, reversal) "
+        "are checked numerically for both orientations and separations 1..4 by the search, not mechanised.",
+        COMMON_NOTE + "Axioms: the three standard-library real-number axioms (sig_forall_dec, sig_not_dec, functional_extensionality_dep). "
+        "The translator is trusted to render the supported expression grammar; it fails closed on anything else.",
+        "DESIGN.md §3 C18"),
 }
 
 NOT_YET = "check not built yet in this round (planned in DESIGN.md §3); no claim is made"
